@@ -80,14 +80,23 @@ pub struct Scanner {
     /// §448/§460: an out-of-range result is replaced by +max_dimen and negated by explicit signs only.
     /// `true` = the known deviation "the clamped value also takes the sign of an internal unit".
     pub clamp_sign_follows_unit: bool,
+    /// the scanner asked for a token after the list was exhausted: what TeX does depends on input
+    /// that the list does not contain
+    pub hit_end: bool,
 }
 
 impl Scanner {
     pub fn new(toks: Vec<Tok>) -> Scanner {
-        Scanner { input: toks.into(), errors: vec![], undefined: false, em: 0, ex: 0, max_char: 0x10FFFF, keyword_any_catcode: true, keyword_skips_spaces: true, fil_l_skips_spaces: true, clamp_sign_follows_unit: false }
+        Scanner { input: toks.into(), errors: vec![], undefined: false, em: 0, ex: 0, max_char: 0x10FFFF, keyword_any_catcode: true, keyword_skips_spaces: true, fil_l_skips_spaces: true, clamp_sign_follows_unit: false, hit_end: false }
     }
     fn get_token(&mut self) -> Tok {
-        self.input.pop_front().unwrap_or(Tok::End)
+        match self.input.pop_front() {
+            Some(t) => t,
+            None => {
+                self.hit_end = true;
+                Tok::End
+            }
+        }
     }
     /// §380 get_x_token (parameterless macros only)
     fn get_x_token(&mut self) -> Tok {
